@@ -84,33 +84,21 @@ func runC06(c *Ctx, r *Report) {
 	if enc == nil {
 		r.fail("C06-R2-inverse-conversions", "encodeValue", "", "not found")
 	} else {
+		// what each kind arm hands to binary.Write, read from the path terms (helpers inlined)
+		writes, wwhy := c.encodeValueWrites()
 		found := map[int]string{}
-		for _, ci := range allCalls(enc) {
-			f := ci.Common().StaticCallee()
-			if f == nil || f.String() != "encoding/binary.Write" {
-				continue
-			}
-			for k := 1; k <= 4; k++ {
-				if domByCallCmp(enc, ci.Block(), "Kind", int64(k)) {
-					found[k] = stripAddrs(pathOf(ci.Common().Args[2]))
-				}
-			}
+		for _, w := range writes {
+			found[w.kind] = w.val
 		}
-		want := map[int][]string{
-			kindUTC:   {"iface(call[" + modPath + ".encodeTime]("},
-			kindLocal: {"encodeTime](", "+conv<int64>(extract#1(call[(time.Time).Zone]("},
-			kindLat:   {".semicircles)"},
-			kindLng:   {".semicircles)"},
+		want := map[int]string{
+			kindUTC:   "(iface (call fit.encodeTime (assert:Time p1)))",
+			kindLocal: "(iface (conv:uint32 " + symBin(token.ADD, "(conv:int64 (call fit.encodeTime (assert:Time p1)))", "(conv:int64 (ext1 (call time.Zone (assert:Time p1))))") + "))",
+			kindLat:   "(iface (fld0 (assert:Latitude p1)))",
+			kindLng:   "(iface (fld0 (assert:Longitude p1)))",
 		}
 		names := map[int]string{kindUTC: "utc-time", kindLocal: "local-time", kindLat: "latitude", kindLng: "longitude"}
 		for k := 1; k <= 4; k++ {
-			ok := found[k] != ""
-			for _, w := range want[k] {
-				if !strings.Contains(found[k], w) {
-					ok = false
-				}
-			}
-			r.check(ok, "C06-R2-inverse-conversions", "encodeValue/"+names[k], c.pos(enc.Pos()), "encoder writes "+found[k], "the "+names[k]+" arm of encodeValue does not write the inverse of what the decoder computes (found "+found[k]+")")
+			r.check(wwhy == "" && found[k] == want[k], "C06-R2-inverse-conversions", "encodeValue/"+names[k], c.pos(enc.Pos()), "encoder writes "+found[k], "the "+names[k]+" arm of encodeValue does not write the inverse of what the decoder computes (found "+found[k]+" "+wwhy+", expected "+want[k]+")")
 		}
 	}
 	// decoder side of coordinates: NewLatitude(int32(arch.Uint32(tmp[:4]))) set into the field
